@@ -28,11 +28,13 @@ func init() {
 		r.floor("R6", 8)
 	}, checkC28)
 	register("C33", func(r *Report) {
-		r.Explanation = "Decides gating and routing structure: (R1) in the keep-alive loop the ticker is created stopped, is stopped on every state notification and re-armed only on the edge 'received state == Active'; a tick calls the ping routine; (R2) every write of the client's state goes through the wrapper that notifies the loop when the state changed; (R3) every (re)transmission of a keep-alive PINGREQ - including the ping transaction's retry callback - is dominated by a test that the state is Active; (R4) a PINGRESP is routed to the transaction that asked for it: with a keep-alive ping and a sleep transaction both pending, the dispatcher must be able to tell them apart. R3 and R4 are known findings today. Not decided: 'at least once per KeepAlive period' (timing), starvation of the capacity-1 notification channel."
+		r.Explanation = "Decides gating and routing structure: (R1) in the keep-alive loop the ticker is created stopped, is stopped on every state notification and re-armed only on the edge 'received state == Active'; a tick calls the ping routine; (R2) every write of the client's state goes through the wrapper that notifies the loop when the state changed; (R3) every (re)transmission of a keep-alive PINGREQ - including the ping transaction's retry callback - is dominated by a test that the state is Active; (R4) a PINGRESP is routed to the transaction that asked for it: with a keep-alive ping and a sleep transaction both pending, the dispatcher must be able to tell them apart. R3 and R4 are known findings today. (R5) the channel on which the receive loop announces state changes has capacity >= 1 as long as the keep-alive loop may wait, inside its tick case, for a packet only the receive loop can deliver (otherwise the two wait for each other); (R6) typestate of the sleep transaction: the state in which its PINGRESP / DISCONNECT handler accepts the reply is entered only by a step that sends the PINGREQ / DISCONNECT the reply answers, so a reply of another exchange is never taken for it. Not decided: 'at least once per KeepAlive period' (timing), starvation of the capacity-1 notification channel."
 		r.floor("R1", 3)
 		r.floor("R2", 1)
 		r.floor("R3", 1)
 		r.floor("R4", 1)
+		r.floor("R5", 1)
+		r.floor("R6", 2)
 	}, checkC33)
 }
 
@@ -1022,6 +1024,204 @@ func checkC33(c *Ctx, r *Report) {
 		} else {
 			r.bad("R4", key, c.instrPos(firstPos), "with a keep-alive ping and a sleep transaction both awaiting PINGRESP, the first slot consulted ("+order[0]+") always gets the packet: the other exchange's PINGRESP is stolen and it fails after its timeout")
 		}
+	}
+	c.checkStateNotificationChannel(r, "R5", loop, sel)
+	c.checkAwaitingStates(r, "R6", m)
+}
+
+// checkStateNotificationChannel: R5 of C33. The receive loop announces state
+// changes to the keep-alive loop over a channel. The keep-alive loop, in its
+// tick case, calls a function that waits for a packet only the receive loop
+// can deliver (the PINGRESP). If the announcement could block until the
+// keep-alive loop is back at its select, the two wait for each other: the
+// PINGRESP is never read, the ping is retransmitted while the client is
+// already asleep and finally fails the client. So while a case of the
+// consumer's select may block on the producer, every channel of ClientState
+// values the producer sends on must be created with capacity >= 1.
+func (c *Ctx) checkStateNotificationChannel(r *Report, rule string, loop *ssa.Function, sel *ssa.Select) {
+	// does another case of the keep-alive select call something that may wait?
+	waits := ""
+	for _, b := range loop.Blocks {
+		for _, i := range b.Instrs {
+			ci, ok := i.(ssa.CallInstruction)
+			if !ok {
+				continue
+			}
+			g := staticCallee(ci.Common())
+			if g == nil || fnPkgPath(g) != pkClient {
+				continue
+			}
+			if c.mayWaitOnTransaction(g, 0, map[*ssa.Function]bool{}) {
+				waits = fnKey(g)
+			}
+		}
+	}
+	n := 0
+	for _, f := range c.repoFuncs("client") {
+		allInstrs(f, func(i ssa.Instruction) {
+			mk, ok := i.(*ssa.MakeChan)
+			if !ok {
+				return
+			}
+			ch, ok := mk.Type().Underlying().(*types.Chan)
+			if !ok || !typeIs(ch.Elem(), pkUtil, "ClientState") {
+				return
+			}
+			n++
+			r.fn(f)
+			key := fnKey(f) + ":state-notification-channel"
+			k, isConst := constInt(mk.Size)
+			switch {
+			case waits == "":
+				r.ok(rule, key, c.instrPos(i), "the keep-alive loop never waits for the receive loop outside its select")
+			case isConst && k >= 1:
+				r.ok(rule, key, c.instrPos(i), fmt.Sprintf("capacity %d: the receive loop's announcement does not wait for the keep-alive loop, which may itself be waiting in %s for a packet from the receive loop", k, waits))
+			default:
+				r.bad(rule, key, c.instrPos(i), "the channel the receive loop announces state changes on is unbuffered (or of unknown capacity) while the keep-alive loop may be inside "+waits+" waiting for a packet that only the receive loop can deliver: the receive loop blocks on the announcement, the PINGRESP behind it is never read, the keep-alive ping is retransmitted while the client is asleep and its failure cancels the client, so a concurrent Sleep() fails")
+			}
+		})
+	}
+	if n == 0 {
+		r.undecided(rule, "state-notification-channel", c.pos(loop.Pos()), "no channel of ClientState values is created in package client")
+	}
+}
+
+// mayWaitOnTransaction: f (through static calls in package client) contains a blocking select/receive on a Done() channel.
+func (c *Ctx) mayWaitOnTransaction(f *ssa.Function, d int, seen map[*ssa.Function]bool) bool {
+	if seen[f] || d > 5 || f.Blocks == nil {
+		return false
+	}
+	seen[f] = true
+	found := false
+	allInstrs(f, func(i ssa.Instruction) {
+		switch x := i.(type) {
+		case *ssa.Select:
+			if x.Blocking {
+				for _, st := range x.States {
+					if isDoneChan(st.Chan) && !c.isContextDone(st.Chan) {
+						found = true
+					}
+				}
+			}
+		case *ssa.UnOp:
+			if x.Op == token.ARROW && isDoneChan(x.X) && !c.isContextDone(x.X) {
+				found = true
+			}
+		case ssa.CallInstruction:
+			if _, isGo := i.(*ssa.Go); isGo {
+				return
+			}
+			if g := staticCallee(x.Common()); g != nil && fnPkgPath(g) == pkClient && c.mayWaitOnTransaction(g, d+1, seen) {
+				found = true
+			}
+		}
+	})
+	return found
+}
+
+// checkAwaitingStates: R6 of C33 (typestate of the sleep transaction). A reply
+// handler of a transaction that keeps its own state field accepts its reply
+// only in one state (the guard at its top). That state may be entered only by
+// the step that sends the request the reply answers - PINGREQ for PINGRESP,
+// DISCONNECT for DISCONNECT - otherwise a reply that belongs to another
+// exchange (a late or duplicated keep-alive PINGRESP) is taken for the answer
+// to a request that was never sent and ends the exchange early.
+func (c *Ctx) checkAwaitingStates(r *Report, rule string, m *gwModel) {
+	request := map[string]string{"Pingresp": "Pingreq", "Disconnect": "Disconnect"}
+	n := 0
+	for _, h := range c.repoFuncs("client") {
+		if h.Signature.Recv() == nil || len(h.Params) != 2 {
+			continue
+		}
+		reply := ""
+		for rp := range request {
+			if typeIs(h.Params[1].Type(), pkPackets1, rp) {
+				reply = rp
+			}
+		}
+		if reply == "" {
+			continue
+		}
+		// guard at the top: compares a plain field of the receiver with a constant
+		var stateField string
+		var stateConst int64 = -1
+		for _, b := range h.Blocks {
+			iff, ok := b.Instrs[len(b.Instrs)-1].(*ssa.If)
+			if !ok {
+				continue
+			}
+			bo, ok := iff.Cond.(*ssa.BinOp)
+			if !ok || (bo.Op != token.NEQ && bo.Op != token.EQL) {
+				continue
+			}
+			k, isC := constInt(bo.Y)
+			u, isLoad := bo.X.(*ssa.UnOp)
+			if !isC || !isLoad {
+				continue
+			}
+			fa, ok := u.X.(*ssa.FieldAddr)
+			if !ok || fa.X != ssa.Value(h.Params[0]) {
+				continue
+			}
+			stateField, stateConst = fieldName(fa.X.Type(), fa.Field), k
+			break
+		}
+		if stateField == "" {
+			continue // RetryTransaction-based handlers keep (state, request packet) together in Proceed: C25-R1 / C17
+		}
+		n++
+		r.fn(h)
+		tname := typeStr(derefType(h.Params[0].Type()))
+		key := fmt.Sprintf("%s:state-%d-entered-with-%s", fnKey(h), stateConst, strings.ToUpper(request[reply]))
+		bad := ""
+		entered := 0
+		for _, f := range c.repoFuncs("client") {
+			allInstrs(f, func(i ssa.Instruction) {
+				st, ok := i.(*ssa.Store)
+				if !ok {
+					return
+				}
+				fa, ok := st.Addr.(*ssa.FieldAddr)
+				if !ok || typeStr(derefType(fa.X.Type())) != tname || fieldName(fa.X.Type(), fa.Field) != stateField {
+					return
+				}
+				if k, ok := constInt(st.Val); !ok || k != stateConst {
+					return
+				}
+				entered++
+				// the same function hands a request of the right type to the sender
+				sends := false
+				allInstrs(f, func(j ssa.Instruction) {
+					cj, ok := j.(ssa.CallInstruction)
+					if !ok {
+						return
+					}
+					g := staticCallee(cj.Common())
+					if g == nil || !m.snSenders[g] {
+						return
+					}
+					for _, t := range c.concreteTypesOf(packetArg(g, cj.Common())) {
+						if t == "*packets1."+request[reply] {
+							sends = true
+						}
+					}
+				})
+				if !sends {
+					bad = fmt.Sprintf("%s enters the state in which %s accepts a %s (%s) without sending a %s: a %s that belongs to another exchange (a late or duplicated keep-alive reply) is then taken for the answer and completes the transaction early", fnKey(f), fnKey(h), strings.ToUpper(reply), c.instrPos(i), strings.ToUpper(request[reply]), strings.ToUpper(reply))
+				}
+			})
+		}
+		switch {
+		case entered == 0:
+			r.undecided(rule, key, c.pos(h.Pos()), "the state the handler requires is never entered")
+		case bad != "":
+			r.bad(rule, key, c.pos(h.Pos()), bad)
+		default:
+			r.ok(rule, key, c.pos(h.Pos()), fmt.Sprintf("the required state is entered only by steps that send the %s the reply answers (%d site(s))", strings.ToUpper(request[reply]), entered))
+		}
+	}
+	if n == 0 {
+		r.undecided(rule, "reply-handlers-with-own-state", "-", "no reply handler guarded by a state field of its own found in package client")
 	}
 }
 
